@@ -1,5 +1,6 @@
 import ConfModel.Driver.Common
 import ConfModel.Model.H2Conn
+import ConfModel.Model.H2FrameW
 import ConfModel.Spec.H2
 namespace ConfModel.Driver.C15
 open Lean ConfModel.Driver ConfModel.H2
@@ -210,6 +211,53 @@ def checkTraces (isServer : Bool) (es : List Expect) (impl : List Obs) : Option 
       else if (due.zip got).all (fun p => traceOK isServer p.1 p.2) then none
       else some s!"test name {n}: the delivered trace does not have the stream's request line/headers, messages, response or end (stream ids {(due.map (·.id))})") none
 
+/-- the fixed-width frame machine on the chunks of one direction ends in the state `s` -/
+def widthRunAgrees (dec : Bytes → HP → Option (Frame × HP)) (isReq : Bool) (chunks : List Bytes) (s : FSt HP) : Bool :=
+  let w := ((frameMachineW dec).runChunks (FStW.init isReq (0, 0)) chunks).1
+  w.broken == s.broken && w.hp == s.hp && w.preface == s.preface && w.pfx == s.pfx && w.buf == s.buf &&
+  w.expecting.toNat == s.expecting && w.actual.toNat == s.actual && w.typ == s.typ && w.flags == s.flags
+
+/-- op bigframe: frames of up to 2^24-1 bytes (unknown-type frames with a filler payload between
+the frames of a named stream).  The bytes are not reported; the implementation's traces are judged
+by the property's predicate on the wire events of the generator's frames (lengths as built by the
+real Framer) in the order the calls complete them.  What the model delivers on such calls is given
+by `Props.C15.end_to_end` and, for layer 1 with the code's counters, `frame_widths_eq_frames`. -/
+def handleBig (inp impl : Json) : Verdict :=
+  let panic := str (field impl "panic")
+  if panic != "" then { agree := false, holds := false, why := "panic: " ++ panic, cls := "panic" } else
+  if bool (field impl "slow") then { agree := true, holds := true, nontrivial := false, cls := "set-aside:machine-too-slow" } else
+  let isServer := bool (field inp "server")
+  let iTraces := sortObs ((arr (field impl "traces")).map parseObs)
+  let transparent := bool (field impl "transparent")
+  let framesJ := arr (field inp "frames")
+  let callsJ := arr (field inp "calls")
+  let lens := natList (field impl "lens")
+  let fl := (framesJ.zip lens).map (fun x => (str (field x.1 "d"), parseFrame x.1, x.2))
+  let qf := frameEnds prefaceLen ((fl.filter (·.1 == "q")).map (·.2))
+  let pf := frameEnds 0 ((fl.filter (·.1 == "p")).map (·.2))
+  let ws := wireEvents isServer { todo := if isServer then qf else pf } { todo := if isServer then pf else qf } callsJ
+  let wf := bool (field inp "legal") && wellFormed ws && lossesOK ws
+  let es := expects [] ws
+  let delivered := wf && deliveredOK isServer es iTraces
+  let traceProblem := if wf then checkTraces isServer es iTraces else some "driver: the generated exchange is not well-formed"
+  -- every announced length fits the 24 bits of the wire format, and the real Framer cut each
+  -- direction into as many units as the generator wrote frames
+  let lensOK := lens.all (· < 9 + 16777216)
+  let nq := nat (field (field impl "nunits") "q")
+  let np := nat (field (field impl "nunits") "p")
+  let unitsOK := nq == qf.length && np == pf.length
+  let maxLen := lens.foldl max 0
+  { agree := lensOK && unitsOK && (delivered == traceProblem.isNone), holds := transparent && delivered,
+    nontrivial := !(namesOf es).isEmpty && maxLen > 16384 + 9,
+    model := Json.mkObj [("frames", toJson fl.length), ("longest", toJson maxLen)],
+    why := if !transparent then "not transparent: " ++ str (field impl "viol")
+           else match traceProblem with
+             | some e => e
+             | none => if !delivered then "the delivered traces do not satisfy Spec.deliveredOK"
+                       else if !unitsOK then "driver: the real Framer found another number of frames than the generator wrote"
+                       else if !lensOK then "driver: a frame longer than 2^24-1 bytes" else "",
+    cls := if maxLen ≥ 9 + 16777215 then "frame-2^24-1" else "frame-above-16384" }
+
 def handleConn (inp impl : Json) : Verdict :=
   let panic := str (field impl "panic")
   if panic != "" then { agree := false, holds := false, why := "panic: " ++ panic, cls := "panic" } else
@@ -230,6 +278,10 @@ def handleConn (inp impl : Json) : Verdict :=
   let c0 : Conn HP := Conn.init isServer (0, 0) (0, 0)
   let c := Conn.run decR decW c0 calls
   let misses := c.rd.hp.2 + c.wr.hp.2
+  -- layer 1 once more with the code's own arithmetic (`expecting uint32`, `actual uint64`): the
+  -- fixed-width machine ends in the state the `Nat` machine ends in (`Props.C15.frame_widths_simulate`)
+  let wSim := widthRunAgrees decR isServer (calls.filterMap (fun | .read d _ => some d | _ => none)) c.rd &&
+              widthRunAgrees decW (!isServer) (calls.filterMap (fun | .write d _ _ => some d | _ => none)) c.wr
   let mTraces := sortObs (c.coll.out.map Trace.obs)
   let iTraces := sortObs ((arr (field impl "traces")).map parseObs)
   let transparent := bool (field impl "transparent")
@@ -271,7 +323,7 @@ def handleConn (inp impl : Json) : Verdict :=
       mTraces.filter (fun o => !dupNames.contains o.name) == iTraces.filter (fun o => !dupNames.contains o.name) &&
       dupNames.all (fun n => (mTraces.filter (·.name == n)).length == (iTraces.filter (·.name == n)).length)
     else mTraces == iTraces
-  let agree := misses == 0 && sameTraces && wsAgree && thmInstance && (delivered == traceProblem.isNone)
+  let agree := misses == 0 && sameTraces && wsAgree && thmInstance && wSim && (delivered == traceProblem.isNone)
   { agree := agree, holds := holds,
     nontrivial := if wf then !(namesOf es).isEmpty else !iTraces.isEmpty || c.rd.broken || c.wr.broken,
     model := Json.mkObj [("traces", Json.arr (mTraces.map obsJson).toArray), ("broken", Json.arr #[c.rd.broken, c.wr.broken]),
@@ -284,6 +336,7 @@ def handleConn (inp impl : Json) : Verdict :=
                else if misses != 0 then "driver: decode table does not match the model's framing"
                else if !wsAgree then "driver: the wire events of the model's layer 1 differ from the generator's frames"
                else if !thmInstance then "driver: the model's traces do not satisfy Spec.deliveredOK (contradicts Props.C15.end_to_end)"
+               else if !wSim then "driver: layer 1 with uint32/uint64 counters ends in another state than the Nat machine (contradicts Props.C15.frame_widths_simulate)"
                else "",
     cls := if wf then (if (es.any (·.superseded)) then "wf-retry" else if es.any (fun e => e.held) then "wf-held" else "wf")
            else if ambiguous then "odd-duplicate-name" else if legal then "legal-odd" else "malformed" }
@@ -378,6 +431,7 @@ def handleLive (inp impl : Json) : Verdict :=
 def handle : Handler := fun op inp impl =>
   match op with
   | "conn" => handleConn inp impl
+  | "bigframe" => handleBig inp impl
   | "retry" => handleRetry inp impl
   | "live" => handleLive inp impl
   | _ => bad ("C15: unknown op " ++ op)
